@@ -29,7 +29,37 @@ def value_to_py(v):
     return str(v)
 
 
+def solve_one(path, timeout_ms, tactic=""):
+    t0 = time.time()
+    fmls = z3.parse_smt2_file(path)
+    s = z3.Tactic(tactic).solver() if tactic else z3.Solver()
+    s.set("timeout", timeout_ms)
+    s.add(fmls)
+    r = str(s.check())
+    out = {"status": r, "time": time.time() - t0}
+    if r == "sat":
+        m = s.model()
+        out["model"] = {d.name(): value_to_py(m[d]) for d in m.decls() if d.arity() == 0}
+    elif r == "unknown":
+        out["detail"] = s.reason_unknown()
+    return out
+
+
+def main_chunk(listfile, timeout_ms):
+    """Chunk mode: one JSON line per query, flushed as soon as it is decided."""
+    for line in open(listfile):
+        idx, path = line.strip().split("\t")
+        try:
+            out = solve_one(path, timeout_ms)
+        except Exception as e:  # noqa
+            out = {"status": "error", "detail": f"{type(e).__name__}: {e}", "time": 0.0}
+        out["idx"] = int(idx)
+        print(json.dumps(out), flush=True)
+
+
 def main():
+    if sys.argv[1] == "--chunk":
+        return main_chunk(sys.argv[2], int(sys.argv[3]))
     path, timeout_ms = sys.argv[1], int(sys.argv[2])
     tactic = sys.argv[3] if len(sys.argv) > 3 else ""
     t0 = time.time()
